@@ -134,6 +134,7 @@ func refVerifyRaw(pub *hbls.PublicKey, share, msg string) bool {
 func c33() {
 	run := ev.Start("C33")
 	L := run.Pick(4, 5)
+	c33Thorough = run.Thorough()
 	if _, _, isWorker := shard(); isWorker {
 		c33worker(run, L)
 		return
@@ -173,24 +174,29 @@ func c33() {
 	run.Finish()
 }
 
+var c33Thorough bool
+
 func c33Contexts(t, n int) []c33ctx {
 	var out []c33ctx
-	for _, rn := range []int64{2, 12} {
-		for _, tc := range []int{0, 1} {
-			for _, ps := range []int64{1, -7046029254386353131} {
+	for i, rn := range []int64{2, 12} {
+		for j, tc := range []int{0, 1} {
+			for k, ps := range []int64{1, -7046029254386353131} {
+				if !c33Thorough && (i+j+k)%2 == 1 {
+					continue // quick tier: a 4-context half of the product in which every value of every coordinate occurs twice
+				}
 				out = append(out, c33ctx{T: t, N: n, Round: rn, TC: tc, PrevSeed: ps, Self: 0})
 			}
 		}
 	}
 	// the same contexts seen by another verifying miner (its DKG object holds the group keys)
 	out = append(out, c33ctx{T: t, N: n, Round: 2, TC: 0, PrevSeed: 1, Self: n - 1})
-	out = append(out, c33ctx{T: t, N: n, Round: 12, TC: 1, PrevSeed: -7046029254386353131, Self: 1})
+	out = append(out, c33ctx{T: t, N: n, Round: 12, TC: 1, PrevSeed: 1, Self: 1})
 	return out
 }
 
 func c33worker(run *ev.Run, L int) {
 	idx, nsh, _ := shard()
-	deadline := workerDeadline(run, 100, 840)
+	deadline := workerDeadline(run, 170, 840)
 	hbls.SetRandFunc(&detRand{})
 	w := world.New(world.Options{})
 	m := setupMiner(w)
